@@ -159,6 +159,30 @@ def set_alias(flag):
     ALIAS = bool(flag)
 
 
+FROM_SHAPE = False  # swarm knob: build grids with Grid.from_shape(factory=...) and assign the remaining cells
+
+
+def set_from_shape(flag):
+    global FROM_SHAPE
+    FROM_SHAPE = bool(flag)
+
+
+def _grid_from_shape(world, mk):
+    """Grid.from_shape with a factory for the most frequent cell kind (doors preferred, so that a factory making
+    mutable objects is exercised), every other cell assigned through Grid.__setitem__"""
+    import collections
+
+    counts = collections.Counter(T(c) for row in world['cells'] for c in row)
+    doors = [(n, d) for d, n in counts.items() if d[0] == 'Door' and n >= 2]
+    base = max(doors)[1] if doors else counts.most_common(1)[0][0]
+    grid = Grid.from_shape((world['h'], world['w']), factory=lambda: mk_obj(base))
+    for y, row in enumerate(world['cells']):
+        for x, c in enumerate(row):
+            if T(c) != base:
+                grid[y, x] = mk(c)
+    return grid
+
+
 def mk_state(world):
     """concretise a world.  With the ALIAS knob on, cells holding equal objects of types the library never
     mutates in place share ONE instance (as a user writing `[Telepod(c)] * 2` would produce): object identity
@@ -175,7 +199,10 @@ def mk_state(world):
             return mk_obj(c)
     else:
         mk = mk_obj
-    grid = Grid([[mk(c) for c in row] for row in world['cells']])
+    if FROM_SHAPE:
+        grid = _grid_from_shape(world, mk)
+    else:
+        grid = Grid([[mk(c) for c in row] for row in world['cells']])
     y, x, o, held = world['agent']
     agent = Agent(Position(y, x), Orientation[o], mk(held))
     return State(grid, agent)
